@@ -129,6 +129,9 @@ pub fn run_sub<S: SubCheck>(ctx: &PropCtx, s: &S, cases: u32) {
                             }
                             return Ok(());
                         }
+                        if std::env::var("VERIF_DEBUG").is_ok() {
+                            eprintln!("[debug] {} fails: {} :: {}", s.name(), f.sig, crate::ev::truncate(&f.msg, 300));
+                        }
                         failed_here.set(true);
                         stop.store(true, Ordering::Relaxed);
                         return Err(TestCaseError::fail(f.sig.clone()));
@@ -141,8 +144,16 @@ pub fn run_sub<S: SubCheck>(ctx: &PropCtx, s: &S, cases: u32) {
                 match res {
                     Ok(()) => {}
                     Err(TestError::Fail(_, case)) => {
-                        let out = exec_caught(s, &case);
-                        let fail = out.fail.unwrap_or_else(|| Fail::new(format!("{}/flaky", s.name()), "failure did not reproduce on re-execution of the shrunk case"));
+                        // the implementation draws its own randomness (salts, paddings): a failure that depends on it may
+                        // need a few re-executions to show again
+                        let mut out = exec_caught(s, &case);
+                        for _ in 0..40 {
+                            if out.fail.is_some() {
+                                break;
+                            }
+                            out = exec_caught(s, &case);
+                        }
+                        let fail = out.fail.unwrap_or_else(|| Fail::new(format!("{}/flaky", s.name()), "failure did not reproduce on 40 re-executions of the shrunk case"));
                         ctx.violation(s.name(), &serde_json::to_value(&case).unwrap_or(Value::Null), &fail);
                     }
                     Err(TestError::Abort(r)) => {
@@ -202,7 +213,14 @@ impl<S: SubCheck> DynSub for S {
     }
     fn replay(&self, case: &Value) -> anyhow::Result<Outcome> {
         let c: S::Case = serde_json::from_value(case.clone())?;
-        Ok(exec_caught(self, &c))
+        let mut out = exec_caught(self, &c);
+        for _ in 0..20 {
+            if out.fail.is_some() {
+                break;
+            }
+            out = exec_caught(self, &c);
+        }
+        Ok(out)
     }
 }
 
